@@ -81,6 +81,52 @@ func runC13(c *Ctx) {
 		func(t string) bool { return strings.HasPrefix(t, "(*mqtt.Hooks).OnConnectAuthenticate(") }, true, "")
 	c.underFact("C13.c auth-gates-success", "(*mqtt.Server).attachClient: Clients.Add only on OnConnectAuthenticate == true", add,
 		func(t string) bool { return strings.HasPrefix(t, "(*mqtt.Hooks).OnConnectAuthenticate(") }, true, "")
+	// every CONNACK sent before authentication carries a failure code
+	codes := c.codeValuesAST()
+	failureOnly := func(fn *ssa.Function) (bool, string) { // all Code globals fn can return, except CodeSuccess, are >= 0x80
+		gl := c.retGlobals(fn, 0, map[*ssa.Function]bool{})
+		if len(gl) == 0 {
+			return false, "no constant return codes found"
+		}
+		for g := range gl {
+			if g == "CodeSuccess" {
+				continue
+			}
+			if v, ok := codes[g]; !ok || v < 0x80 {
+				return false, fmt.Sprintf("%s (0x%02X) is not a failure code", g, v)
+			}
+		}
+		return true, fmt.Sprintf("%d possible codes, all failures", len(gl))
+	}
+	for _, ci := range calls {
+		if dominatedByFact(ci, func(t string) bool { return strings.HasPrefix(t, "(*mqtt.Hooks).OnConnectAuthenticate(") }, true) {
+			continue
+		}
+		reason := ci.Common().Args[2]
+		d := describe(reason)
+		construct := fmt.Sprintf("(*mqtt.Server).attachClient: SendConnack(%s) before authentication carries a failure code", d)
+		if strings.HasPrefix(d, "packets.") {
+			v, known := codes[strings.TrimPrefix(d, "packets.")]
+			c.ob("C13.c auth-gates-success", construct, c.pos(ci.Pos()), known && v >= 0x80, fmt.Sprintf("code 0x%02X", v))
+			continue
+		}
+		if call, isCall := reason.(*ssa.Call); isCall && cname(&call.Call) == "(*mqtt.Server).validateConnect" {
+			okc, why := failureOnly(call.Call.StaticCallee())
+			okc = okc && dominatedByFact(ci, textEq(describe(call)+" == packets.CodeSuccess"), false)
+			c.ob("C13.c auth-gates-success", construct, c.pos(ci.Pos()), okc, why)
+			continue
+		}
+		c.ob("C13.c auth-gates-success", construct, c.pos(ci.Pos()), false,
+			"SendConnack writes the success form of the CONNACK for any code below 0x80; this code is not a constant failure and the call is not gated by OnConnectAuthenticate")
+	}
+	// the connection is closed whatever the first packet was: the deferred Stop is registered before the first read
+	var stopDefer ssa.Instruction
+	for _, ins := range instrs(f) {
+		if d, isDefer := ins.(*ssa.Defer); isDefer && cname(&d.Call) == "(*mqtt.Client).Stop" {
+			stopDefer = d
+		}
+	}
+	c.dom("C13.d valid-connect-only", "(*mqtt.Server).attachClient: Client.Stop is deferred before the first packet is read, so a bad first packet still closes the connection", stopDefer, c.call1(f, "(*mqtt.Server).readConnectionPacket"), "")
 	c.existentialHook("C13.c auth-gates-success", "OnConnectAuthenticate")
 	if hb := c.fn("mqtt", "(*HookBase).OnConnectAuthenticate"); hb != nil {
 		good := true
@@ -443,6 +489,10 @@ func runC15(c *Ctx) {
 			c.noPath("C15.c zero-not-raised", "(*mqtt.Server).processDisconnect: the interval is not stored when the packet's is > 0 and the session's is 0", f, nil, isIns(st), nil,
 				[]Assume{assumeEq("pk.Properties.SessionExpiryInterval > 0", true), assumeEq("cl.Properties.Props.SessionExpiryInterval == 0", true)}, "[MQTT-3.1.2-23]/3.14.2.2.2: a zero interval cannot be raised by DISCONNECT")
 			c.underFact("C15.c zero-not-raised", "(*mqtt.Server).processDisconnect: the interval is stored only when the DISCONNECT carries one", st, textEq("pk.Properties.SessionExpiryIntervalFlag"), true, "")
+			// a DISCONNECT may lower the interval, in particular to 0 (session ends at this disconnect)
+			_, hit := (&PathQuery{Fn: f, Target: isIns(st), Assume: []Assume{assumeEq("pk.Properties.SessionExpiryIntervalFlag", true), assumeEq("pk.Properties.SessionExpiryInterval > 0", false)}}).Find()
+			c.ob("C15.c zero-not-raised", "(*mqtt.Server).processDisconnect: a DISCONNECT carrying interval 0 is honoured (the session then ends at disconnect)", c.pos(st.Pos()), hit != nil,
+				"the store is unreachable when the packet's interval is 0: the session is kept for its connect-time interval")
 			// (d) cap
 			capped := strings.Contains(describe(st.Val), "MaximumSessionExpiryInterval")
 			if !capped {
@@ -944,6 +994,22 @@ func runC21(c *Ctx) {
 	}
 	if f := c.fn("mqtt", "(*Server).retainMessage"); f != nil {
 		c.dom("C21.a persist-before-ack", "(*mqtt.Server).retainMessage persists through hooks.OnRetainMessage", c.call1(f, "(*mqtt.TopicsIndex).RetainMessage"), c.call1(f, "(*mqtt.Hooks).OnRetainMessage"), "")
+	}
+	// (b) storage-deleting hooks issued for a superseded (taken-over) client object must be guarded:
+	// the records are keyed by client id alone and belong to the live session that took over.
+	notTaken := func(t string) bool { return strings.HasPrefix(t, "(*mqtt.Client).IsTakenOver(") }
+	for _, spec := range []struct{ fn, hook, what string }{
+		{"(*Server).UnsubscribeClient", "(*mqtt.Hooks).OnUnsubscribed", "stored subscriptions"},
+		{"(*Client).ClearInflights", "(*mqtt.Hooks).OnQosDropped", "stored in-flight messages"},
+	} {
+		if f := c.fn("mqtt", spec.fn); f != nil {
+			hs := c.callsNamed(f, spec.hook)
+			c.floor("C21.b deleting hook in "+spec.fn, len(hs), 1)
+			for _, h := range hs {
+				c.underFact("C21.b superseded-session-deletes-nothing", fname(f)+": "+strings.TrimPrefix(spec.hook, "(*mqtt.Hooks).")+" (deletes "+spec.what+" keyed by client id) is skipped for a taken-over client", h, notTaken, false,
+					"inheritClientSession calls this for the superseded client after the live session took the records over: the hook deletes state that belongs to the live session")
+			}
+		}
 	}
 	if f := c.fn("mqtt", "(*Server).loadSubscriptions"); f != nil {
 		c.underFact("C21.c no-subscription-without-session", "(*mqtt.Server).loadSubscriptions: Topics.Subscribe only for a client id with a restored session", c.call1(f, fnTopicsSub),
